@@ -8,7 +8,7 @@
    recomputed on an unchanged tree is PROVED for flat trees with any number of generations (C09_unchanged_flat_tree_exit_0,
    C09_flat_invariant below); for nested histories it is the lockstep correspondence's job (create and verify -dh call
    the same `dirhash`). *)
-From MHL Require Import Model.Commands Gen.Generated Proofs.BaseFacts Proofs.CodecFacts Proofs.DirHashFacts Proofs.VerifyFacts Proofs.SensFacts Proofs.TreeFacts Proofs.HistFacts Proofs.FlatFacts Proofs.FlatDhFacts Proofs.StructFacts.
+From MHL Require Import Model.Commands Gen.Generated Proofs.BaseFacts Proofs.CodecFacts Proofs.DirHashFacts Proofs.VerifyFacts Proofs.SensFacts Proofs.TreeFacts Proofs.HistFacts Proofs.FlatFacts Proofs.FlatDhFacts Proofs.StructFacts Proofs.ReloadFacts Proofs.NestedFacts Proofs.NestedDhFacts.
 
 Theorem C09_never_aborts : forall Hb matches C cdig t f co ro ip ifl,
   exists c, o_outcome (snd (verify_dh Hb matches C cdig t f co ro ip ifl)) = Exit c.
@@ -103,3 +103,77 @@ Example C09_root_without_directory_hashes_refuted :
     In Xxh64 (dh_failed toyHb9 (fun _ _ => false) N hs t9 None false false default_ignore) /\
     o_outcome (snd (verify_dh toyHb9 (fun _ _ => false) N (fun c => [c]) t9 None false false [] [])) = Exit 0.
 Proof. eexists. split; [vm_compute; reflexivity|]. split; vm_compute; auto. Qed.
+
+(* ANY NESTING OF HISTORIES, end to end (folder mode, seen from one and the same folder).  `dh_inv_n hs t spec`: every
+   directory entry of every generation of EVERY loaded history, and every root hash, is what `dirhash` yields now for that
+   folder -- computed from the command's folder, under the effective patterns.  It implies verify -dh = 0 whatever the
+   options (C09_nested_invariant_gives_0); it is kept by every run of create on the untouched tree together with the
+   create / verify state of C03 (`nstate`), for any number and depth of nested histories -- the run records the
+   directory hashes of each folder in the history the folder belongs to, the root folder of a nested history additionally
+   in the history above it, and the folder's own hash as the root hash of its history (C09_nested_cycle); hence after any
+   number of runs verify -dh exits 0 (C09_nested_sequences).  The invariant is about ONE command folder: a generation
+   that was recorded by a run started in a sub-folder enters with the hashes that run computed (same bytes, but patterns
+   matched on paths relative to the sub-folder); it satisfies the invariant when no pattern separates the two views. *)
+Theorem C09_nested_invariant_gives_0 : forall Hb matches C cdig h0 kids hs ofmt co ro,
+  let t := Dir h0 kids in
+  load C cdig t = inl hs -> nprev hs ->
+  dh_inv_n Hb matches C hs t (set_patterns (latest_patterns (lh_gens (root_hist hs))) [] (pattern_file_lines [])) ->
+  o_outcome (snd (verify_dh Hb matches C cdig t ofmt co ro [] [])) = Exit 0.
+Proof. exact nested_dh_exit_0. Qed.
+Print Assumptions C09_nested_invariant_gives_0.
+Theorem C09_nested_cycle : forall Hb matches C cdig ser h0 kids hs req no_dh,
+  wf_tree C (Dir h0 kids) -> load C cdig (Dir h0 kids) = inl hs -> req <> [] -> nstate_dh Hb matches C hs (Dir h0 kids) ->
+  let run := create_folder Hb matches C cdig ser (Dir h0 kids) req no_dh false [] [] in
+  o_outcome (snd run) = Exit 0 /\
+  exists h1 kids1 hs', fst run = Dir h1 kids1 /\ wf_tree C (fst run) /\ load C cdig (fst run) = inl hs' /\ nstate_dh Hb matches C hs' (fst run) /\
+    forall ofmt co ro, o_outcome (snd (verify_dh Hb matches C cdig (fst run) ofmt co ro [] [])) = Exit 0.
+Proof. exact nested_cycle_dh. Qed.
+Print Assumptions C09_nested_cycle.
+Theorem C09_nested_sequences : forall Hb matches C cdig ser rs h0 kids hs,
+  wf_tree C (Dir h0 kids) -> load C cdig (Dir h0 kids) = inl hs -> nstate_dh Hb matches C hs (Dir h0 kids) -> Forall (fun x => fst x <> []) rs ->
+  let r := run_creates Hb matches C cdig ser (Dir h0 kids) rs in
+  Forall (fun o => o = Exit 0) (snd r) /\
+  forall ofmt co ro, o_outcome (snd (verify_dh Hb matches C cdig (fst r) ofmt co ro [] [])) = Exit 0.
+Proof. exact nested_sequences_dh. Qed.
+Print Assumptions C09_nested_sequences.
+(* one run with explicit patterns: the invariant under the patterns the run used *)
+Theorem C09_nested_run : forall Hb matches C cdig ser h0 kids hs req no_dh ip ifl,
+  let t := Dir h0 kids in
+  let spec := set_patterns (latest_patterns (lh_gens (root_hist hs))) ip (pattern_file_lines ifl) in
+  wf_tree C t -> load C cdig t = inl hs -> NoDup (latest_patterns (lh_gens (root_hist hs))) ->
+  dh_inv_n Hb matches C hs t spec ->
+  let run := create_folder Hb matches C cdig ser t req no_dh false ip ifl in
+  forall hs', load C cdig (fst run) = inl hs' ->
+  dh_inv_n Hb matches C hs' (fst run) (set_patterns (latest_patterns (lh_gens (root_hist hs'))) [] (pattern_file_lines [])).
+Proof. exact nested_run_dh. Qed.
+Print Assumptions C09_nested_run.
+
+(* non-vacuity: the nested state of Props/C03.v (folder `a` sealed on its own with directory hashes, beside a second file;
+   the root has no history yet) satisfies the invariant; after the run at the root verify -dh exits 0.  (A small hash
+   primitive keeps the evaluation inside the kernel's virtual machine short.) *)
+Definition c09_cdig (c : N) : text := [c].
+Definition c09_ser (g : gen) : N := (g_no g + 10)%N.
+Definition c09_m (spec : list text) (s : text) : bool := false.
+Definition c09_Hb (f : fmt) (b : bytes) : bytes := match f with Md5 => b | _ => 0%N :: b end.
+Definition c09_t : node N := Eval vm_compute in
+  Dir None [([97%N], fst (create_folder c09_Hb c09_m N c09_cdig c09_ser (Dir None [([102%N], @File N [7%N])]) [Md5] false false [] []));
+            ([103%N], @File N [8%N])].
+Definition c09_hs : list lhist := Eval vm_compute in match load N c09_cdig c09_t with inl l => l | inr _ => [] end.
+Example C09_nested_state_nonvacuous :
+  load N c09_cdig c09_t = inl c09_hs /\ wf_tree N c09_t /\ nstate_dh c09_Hb c09_m N c09_hs c09_t /\
+  (exists h g es, In h c09_hs /\ In g (lh_gens h) /\ g_root g = Some es /\ es <> []) /\
+  let run := create_folder c09_Hb c09_m N c09_cdig c09_ser c09_t [Sha1] false false [] [] in
+  o_outcome (snd run) = Exit 0 /\
+  o_outcome (snd (verify_dh c09_Hb c09_m N c09_cdig (fst run) None false false [] [])) = Exit 0.
+Proof.
+  split; [vm_compute; reflexivity|]. split.
+  { unfold c09_t. constructor; [cbn; repeat constructor; cbn; intuition discriminate|].
+    repeat constructor; cbn; intuition discriminate. }
+  split.
+  { split.
+    - split; [apply nprev_b_ok; vm_compute; reflexivity|]. split; [apply (ncur_b_ok c09_Hb N); vm_compute; reflexivity|].
+      split; [vm_compute; constructor|]. split; vm_compute; reflexivity.
+    - apply dh_inv_n_b_ok. vm_compute. reflexivity. }
+  split; [|vm_compute; split; reflexivity].
+  unfold c09_hs. eexists. eexists. eexists. split; [left; reflexivity|]. split; [left; reflexivity|]. split; [reflexivity|discriminate].
+Qed.
